@@ -173,7 +173,7 @@ def _attrs_start(src, masked, head_start):
         return pos
 
 
-def _find_in(src, masked, lo, hi, seg):
+def _find_all_in(src, masked, lo, hi, seg):
     seg = seg.strip()
     kind, _, rest = seg.partition(" ")
     rest = rest.strip()
@@ -182,7 +182,7 @@ def _find_in(src, masked, lo, hi, seg):
         for m, s in _depth0_positions(masked, lo, hi, rx):
             o = s + m.end() - m.start() - 1
             hs = _head_start(masked, lo, s)
-            return Item(src, masked, "mod", rest, _attrs_start(src, masked, hs), hs, o, match_close(masked, o))
+            yield Item(src, masked, "mod", rest, _attrs_start(src, masked, hs), hs, o, match_close(masked, o))
     elif kind == "impl":
         want = _norm("impl " + rest)
         for m, s in _depth0_positions(masked, lo, hi, r"\bimpl\b"):
@@ -196,7 +196,7 @@ def _find_in(src, masked, lo, hi, seg):
             # also allow dropping generic args on the self type: impl<T> S<T> == "impl S"
             head_plain = _norm(re.sub(r"<[^<>]*(<[^<>]*>[^<>]*)*>$", "", head_nowhere))
             if want in (head, head_nog, head_nowhere, head_plain):
-                return Item(src, masked, "impl", rest, _attrs_start(src, masked, s), s, o, match_close(masked, o))
+                yield Item(src, masked, "impl", rest, _attrs_start(src, masked, s), s, o, match_close(masked, o))
     elif kind in ("fn", "struct", "enum", "trait"):
         rx = r"\b%s\s+%s\b" % (kind, re.escape(rest))
         for m, s in _depth0_positions(masked, lo, hi, rx):
@@ -219,10 +219,9 @@ def _find_in(src, masked, lo, hi, seg):
             if o < 0:
                 continue
             hs = _head_start(masked, lo, s)
-            return Item(src, masked, kind, rest, _attrs_start(src, masked, hs), hs, o, match_close(masked, o))
+            yield Item(src, masked, kind, rest, _attrs_start(src, masked, hs), hs, o, match_close(masked, o))
     else:
         raise ValueError("bad path segment: " + seg)
-    raise LostAnchor("item not found: " + seg)
 
 
 def _head_start(masked, lo, kw_start):
@@ -239,13 +238,23 @@ def _head_start(masked, lo, kw_start):
 
 
 def find_item(src: str, path: str, masked: str = None) -> Item:
+    """first item matching the whole path (backtracks over several `impl X` blocks)"""
     masked = masked if masked is not None else mask(src)
-    lo, hi = 0, len(src)
-    item = None
-    for seg in path.split("/"):
-        item = _find_in(src, masked, lo, hi, seg)
-        lo, hi = item.open + 1, item.close
-    return item
+    segs = path.split("/")
+
+    def rec(k, lo, hi):
+        for it in _find_all_in(src, masked, lo, hi, segs[k]):
+            if k + 1 == len(segs):
+                return it
+            r = rec(k + 1, it.open + 1, it.close)
+            if r is not None:
+                return r
+        return None
+
+    it = rec(0, 0, len(src))
+    if it is None:
+        raise LostAnchor("item not found: " + path)
+    return it
 
 
 def struct_fields(item: Item):
